@@ -130,6 +130,24 @@ PROPS = {    "C01": {
         "assumptions": ["a step counts as executing while its label is 'running' (includes waiting out a retry interval)", "termination for every k: every path must end with Schedule returned (deadlock/livelock are violations)"] + RUN_ASSUME,
         "outside_claim": COMMON_OUTSIDE + RUN_OUTSIDE,
     },
+    "C09": {
+        "obligations": [
+            {"name": "C09.tick", "pkg": "./internal/scheduler", "replay": "R1t", "labels_unordered": True,
+             "must_assert": ["C09.tick/scheduled-minute-is-not-missed", "C09.tick/no-start-unless-scheduled-unsuspended-idle-and-not-yet-run", "C09.tick/stop-acts-only-on-running-dags",
+                             "C09.tick/restart-issued-at-each-matching-minute"],
+             "quick": {"entry": "VerifHarness_C09_tick1", "flags": ["-unwind", "32"], "sample_paths": 2,
+                       "bounds": {"dags": 1, "start_schedules": "0..2", "stop_schedules": "0..1", "restart_schedules": "0..1", "ticks": 1, "D": 0,
+                                  "latest_run": "none | earlier minute | previous minute :59 | same minute :00 | same minute :59 | later minute", "status": "all 5"}},
+             "thorough": {"entry": "VerifHarness_C09_tick1", "flags": ["-unwind", "32", "-delays", "1"], "sample_paths": 2, "bounds": {"dags": 1, "D": 1}}},
+            {"name": "C09.tick-2dags", "pkg": "./internal/scheduler", "replay": "R1t", "labels_unordered": True,
+             "quick": {"entry": "VerifHarness_C09_tick2", "flags": ["-unwind", "32"], "sample_paths": 2,
+                       "bounds": {"dags": 2, "start_schedules": "0..1 each", "stop_schedules": "0..1", "restart_schedules": "0..1", "ticks": 1, "D": 0}}},
+        ],
+        "assumptions": ["cron.Schedule.Next replaced by its contract over a per-schedule match bit for the tick minute T: Next(T-1s) = T iff the schedule matches T, else a later minute (robfig/cron grammar x calendar is outside the claim)",
+                        "instants are concrete representatives (tick minute fixed, latest run in 6 position classes); match bits, suspended flags and statuses are symbolic",
+                        "fake client.Client: GetLatestStatus never errors (an unreadable latest status is C07/C08 territory)", "time.Local = UTC"],
+        "outside_claim": COMMON_OUTSIDE + ["cron 5-field grammar over the real calendar", "tick sequences (C09.ticks), daemon restarts, directory watching (C09.files): not built", "schedule forms (C09.forms) are covered by C13.build/schedule"],
+    },
     "C10": {
         "obligations": [
             {"name": "C10.reset", "pkg": SCHED, "replay": "R1",
